@@ -114,17 +114,21 @@ def run(tier, seed, replay=None):
     codes, err = sc.eval_codes(["Elem", "Validate", "Parser", "RunSchema"], "run_case_c01", cases, tag="c01")
     res.corr_error = err
     res.corr_mismatches = []
-    stats["theorem_applies"] = {"cases": 0, "calls": 0}
+    stats["theorem_applies"] = {"cases": 0, "calls": 0, "class_free_cases": 0, "with_classes_cases": 0}
     for idx, cs in sorted((codes or {}).items()):
         s, ob, stream = metas[idx]
         if 9 in cs:
-            # the schema lies in the fragment of C01_validity_plain (Plain.plainb, proved sound): on these cases the
+            stats["theorem_applies"]["class_free_cases"] += 1
+        elif 10 in cs:
+            stats["theorem_applies"]["with_classes_cases"] += 1
+        if 9 in cs or 10 in cs:
+            # the schema lies in the fragment of C01_validity_plain (9) or C01_validity_classes_top (10): on these cases the
             # model's verdicts are Draft 6 by theorem, so the implementation is tied to Draft 6 by correspondence alone
             stats["theorem_applies"]["cases"] += 1
             stats["theorem_applies"]["calls"] += len(ob["vals"])
-            cs = [c for c in cs if c != 9]
+            cs = [c for c in cs if c not in (9, 10)]
             if 5 in cs:
-                res.corr_mismatches.append({"schema": s, "codes": cs, "what": "model verdict differs from v6 on a schema of the plain fragment: contradicts C01_validity_plain (cannot happen unless the build is inconsistent)"})
+                res.corr_mismatches.append({"schema": s, "codes": cs, "what": "model verdict differs from valid6 on a schema of the proved fragment: contradicts C01_validity_plain / C01_validity_classes_top (cannot happen unless the build is inconsistent)"})
             if not cs:
                 continue
         for c in cs:
